@@ -115,6 +115,8 @@ def _build_class(case, gen):
         elif attr == "frequency":
             _set(e, enc, "frequency", freq)
         elif attr == "refrac" and enc == "hpe":
+            if sp.get("keep_refrac"):
+                continue  # the explicit period given to the constructor (in ms) must survive the dt change
             if m is None and sp.get("m0") is None:
                 continue  # stays derived from the step time
             _set(e, enc, "refrac", refrac)
@@ -232,6 +234,12 @@ def run_encode(case):
             cls.append("gap-tight")
     if case.get("setters"):
         cls.append("via-setters")
+        if case["setters"].get("keep_refrac"):
+            cls.append("explicit-refrac-then-dt")
+            if case["setters"].get("m0") == 1:
+                cls.append("explicit-refrac==dt0-then-dt")
+        elif enc == "hpe" and case.get("m") is None and case["setters"]["dt0"] != dt and "dt" in case["setters"]["order"]:
+            cls.append("derived-refrac-follows-dt")
     multi = bool((counts >= 2).any())
     has_zero = bool(zero.any())
     if multi:
@@ -258,6 +266,12 @@ PSTEP = [0.05, 0.1, 0.25, 0.5, 0.5, 0.8, 0.8, 0.95, 1.5]
 # two configuration-through-setter paths crash on the pinned tree (approx.frequency setter, hpe.refrac = None);
 # they are not part of C19's statement and are excluded by construction (DESIGN.md section 6, observations)
 KNOWN_REGION_ONE_IN = 8
+# (dt0, m0, new dt, required gap in steps = m0*dt0/dt): dyadic, both directions, m0 == 1 is refrac == dt0
+KEEP_REFRAC = [
+    (1.0, 1, 0.5, 2), (1.0, 1, 0.25, 4), (0.5, 1, 0.25, 2), (2.0, 1, 1.0, 2), (2.0, 1, 0.5, 4), (1.0, 1, 0.5, 2),
+    (1.0, 2, 0.5, 4), (0.5, 2, 0.25, 4), (1.0, 3, 0.5, 6),
+    (0.5, 2, 1.0, 1), (0.5, 4, 1.0, 2), (0.5, 6, 1.0, 3), (1.0, 2, 2.0, 1), (1.0, 4, 2.0, 2), (0.25, 4, 0.5, 2), (0.25, 4, 1.0, 1),
+]
 
 
 @st.composite
@@ -305,6 +319,19 @@ def encode_case(draw, tier="quick"):
         if enc == "approx" and not known:
             sp["freq0"] = freq
             sp["order"] = [a for a in sp["order"] if a != "frequency"]  # frequency setter raises AttributeError
+        if enc == "hpe" and draw(st.integers(0, 2)) == 0:
+            # explicit refractory period (ms) given to the constructor - including refrac == dt0 - then a dt
+            # assignment to a DIFFERENT dyadic step time and no refrac assignment: the period stays m0*dt0 ms,
+            # i.e. m = m0*dt0/dt steps (exact by construction); encoded at a high rate so the gap is exercised
+            dt0, m0, dt1, m1 = draw(st.sampled_from(KEEP_REFRAC))
+            p = draw(st.sampled_from([0.8, 0.95, 1.5]))
+            sp["dt0"], sp["m0"], sp["keep_refrac"] = dt0, m0, True
+            c["dt"], c["m"] = dt1, m1
+            c["freq"] = round(1000.0 * p / dt1, 6)
+            c["steps"] = max(c["steps"], 30)
+            c["inten"] = [["z"], ["o"]] + c["inten"][:3]
+            if c["compensate"] and c["freq"] * m1 * dt1 >= 999.99:
+                c["compensate"] = False
         c["setters"] = sp
     return c
 
@@ -316,7 +343,8 @@ LEGS = [
         rule="every shipped encoder class and functional form, online and offline, generator seeded from the case, "
              "steps 1-80 (200 thorough), dt in {1, .5, .25, 2, .1, 1.3, .7}, frequency 0 / 10 / 100 / 900 Hz or 1000 p / dt with p in {.05 ... 1.5} expected spikes per step, refractory None / dt / "
              "2,3,5,7 dt, compensation on/off (frequency*refrac < 1000), intensities from {0, 1, 2^-20, drawn}, shapes "
-             "(), (1,), (3,), (4,), (2,3); a quarter of the class cases are configured through the setters; "
+             "(), (1,), (3,), (4,), (2,3); a quarter of the class cases are configured through the setters (incl. an explicit refractory "
+             "period - also one equal to the start dt - kept across a dt assignment to a different dyadic step time, and a derived one following dt); "
              "non-trivial when some element spikes >= 2 times and some element has zero intensity",
     ),
 ]
